@@ -591,7 +591,11 @@ func (e *EdgeQuery) initQueue() {
 	if len(e.indexCovering) == 0 {
 		// We delay iterator initialization until now to make queries on very
 		// small indexes a bit faster (i.e., where brute force is used).
-		e.iter = NewShapeIndexIterator(e.index)
+		//
+		// Use index.Iterator (rather than NewShapeIndexIterator) so that any
+		// pending updates are applied first: the query may be the first thing
+		// that looks at the index since shapes were added to it.
+		e.iter = e.index.Iterator()
 	}
 
 	// Optimization: if the user is searching for just the closest edge, and the
